@@ -587,6 +587,9 @@ def parse_units(s) :
     s = s.strip()
     if s == "" :
         return Units(UnitsSystem(), UnitsDimensions())
+    for c in s :
+        if c.isspace() :
+            raise ValueError("unexpected white space in the units expression \""+s+"\".")
 
     def get_unit_type(unitstr) :
         for k in _units_labels_dict.keys() :
